@@ -72,13 +72,15 @@ static uint8_t *VG_OUT; static const uint8_t *VG_IN; static const uint8_t *VG_KS
 
 /* role contract of a data xor inside a CTR encrypt loop: n bytes at data position VG_GP, keystream
    bytes [o, o+n) of the buffer holding block(s) VG_EBLK.. ; asserted at every call site */
-#define VCTR_XOR_ROLE(outp, inp, ksp, n, BATCH) \
+/* B = block bytes, LANES = blocks per keystream buffer (1 for the generic back ends) */
+#define VCTR_XOR_ROLE_L(outp, inp, ksp, n, B, LANES) \
     __CPROVER_requires((uint8_t *)(outp) == VG_OUT + VG_GP && (const uint8_t *)(inp) == VG_IN + VG_GP) \
     __CPROVER_requires((n) <= VG_V0 - VG_GP) \
-    __CPROVER_requires((const uint8_t *)(ksp) >= VG_KS && (size_t)((const uint8_t *)(ksp) - VG_KS) + (n) <= (BATCH)) \
-    __CPROVER_requires((VG_EBLK - (VG_C0 - 1)) * (BATCH) + (vu128)((const uint8_t *)(ksp) - VG_KS) == (vu128)VG_O0 + VG_GP) \
-    __CPROVER_requires((VG_EBLK - (VG_C0 - 1)) <= (VG_GP / (BATCH)) + 1) \
+    __CPROVER_requires((const uint8_t *)(ksp) >= VG_KS && (size_t)((const uint8_t *)(ksp) - VG_KS) + (n) <= (size_t)(B) * (LANES)) \
+    __CPROVER_requires((VG_EBLK - (VG_C0 - (LANES))) * (B) + (vu128)((const uint8_t *)(ksp) - VG_KS) == (vu128)VG_O0 + VG_GP) \
+    __CPROVER_requires((VG_EBLK - (VG_C0 - (LANES))) <= (VG_GP / (B)) + (LANES)) \
     __CPROVER_assigns(VG_GP) /* the write to [outp, outp+n) is abstracted: its extent is asserted above, its content is irrelevant here */ \
     __CPROVER_ensures(VG_GP == __CPROVER_old(VG_GP) + (n))
+#define VCTR_XOR_ROLE(outp, inp, ksp, n, BATCH) VCTR_XOR_ROLE_L(outp, inp, ksp, n, BATCH, 1)
 
 #endif
